@@ -551,6 +551,43 @@ void wake(int kind, long obj) {
     if (t->state == T_BLOCKED && t->wait_kind == kind && t->wait_obj == obj) t->state = T_RUNNABLE;
 }
 
+// A data choice made by the scheduler (which waiter a signal wakes): part of the decision stream, so that it is
+// seeded, recorded, replayed and minimised exactly like the choice of the next task.  Encoded as -(1+choice).
+int choose(int n) {
+  if (n <= 1 || !W) return 0;
+  Result &r = W->res;
+  long m = r.multi++;
+  int c = 0;
+  if (W->cfg.use_deviations) {
+    while (W->dev_pos < W->cfg.deviations.size() && W->cfg.deviations[W->dev_pos].first < m) W->dev_pos++;
+    if (W->dev_pos < W->cfg.deviations.size() && W->cfg.deviations[W->dev_pos].first == m) {
+      int want = -(W->cfg.deviations[W->dev_pos].second) - 1;
+      if (want >= 0 && want < n) c = want;
+    }
+  } else if (W->cfg.strat.type == Strategy::REPLAY) {
+    int want = W->replay_pos < W->cfg.replay.size() ? -(W->cfg.replay[W->replay_pos]) - 1 : -1;
+    W->replay_pos++;
+    if (want >= 0 && want < n) c = want;
+    else if (W->cfg.replay_strict) { r.outcome = RUN_DIVERGED; back_to_main(); }
+  } else if (W->cfg.strat.type != Strategy::DEFAULT) {
+    c = (int)W->rng.below((uint64_t)n);
+  }
+  r.decisions.push_back(-(c + 1));
+  if (c != 0) r.deviations.emplace_back(m, -(c + 1));
+  r.fingerprint = hmix(r.fingerprint, (uint64_t)(1000003 + c * 31 + n));
+  return c;
+}
+
+int wake_one(int kind, long obj) {
+  std::vector<Task *> ws;
+  for (Task *t : W->tasks)
+    if (t->state == T_BLOCKED && t->wait_kind == kind && t->wait_obj == obj) ws.push_back(t);
+  if (ws.empty()) return -1;
+  Task *t = ws[(size_t)choose((int)ws.size())];
+  t->state = T_RUNNABLE;
+  return t->id;
+}
+
 void join_task(int task) {
   point(K_JOIN, task);
   while (W->tasks[task]->state != T_DONE && W->tasks[task]->state != T_DEAD) block_on(K_JOIN, task);
